@@ -2,6 +2,7 @@
 
 use std::collections::{BTreeMap, BTreeSet};
 
+use crate::on_mdk;
 use crate::fingerprint::StateKey;
 use crate::runner::{CaseReport, Mode};
 use crate::world::{ChainState, Class, Failure, Outcome, Regime, World};
@@ -588,6 +589,39 @@ impl Observer for RedeliveryObserver {
         redelivery: bool,
     ) -> Result<(), Failure> {
         if !redelivery {
+            // the first echo of an own application message confirms that message (its state
+            // moves to processed) - for everything else the client stores it is a re-delivery of
+            // something already handled: no other message may change or disappear
+            if let (Some(before_all), Outcome::App(_)) = (before, outcome) {
+                let ev = &w.relay[idx];
+                if ev.author == who && ev.class == Class::App && ev.forged.is_none() && ev.replay_of.is_none() {
+                    let after_all = w.full_all(who);
+                    let own_id = ev.rumor.as_ref().and_then(|r| r.id).map(|i| i.to_hex());
+                    let Some(own_id) = own_id else { return Ok(()) };
+                    *self.kinds.entry("first-echo-of-own-message".into()).or_insert(0) += 1;
+                    self.checked += 1;
+                    for (gi, (b, a)) in before_all.iter().zip(after_all.iter()).enumerate() {
+                        for y in b.msgs_created.iter().filter(|y| y.id != own_id) {
+                            match a.msgs_created.iter().find(|x| x.id == y.id) {
+                                Some(x) if x == y => {}
+                                other => {
+                                    return Err(Failure::new(
+                                        "redelivery-changed-state",
+                                        format!(
+                                            "the echo of c{who}'s own message #{idx} ({}) changed another stored message of group#{gi}: {} ({:?}, {}) -> {}",
+                                            ev.what,
+                                            crate::fingerprint::sh(&y.id, 8),
+                                            y.content,
+                                            y.state,
+                                            other.map(|x| format!("({:?}, {})", x.content, x.state)).unwrap_or_else(|| "gone".into())
+                                        ),
+                                    ));
+                                }
+                            }
+                        }
+                    }
+                }
+            }
             return Ok(());
         }
         let Some(before_all) = before else { return Ok(()) };
@@ -1094,8 +1128,13 @@ impl Observer for AuthzObserver {
         let rolled = rollback_fired_now(w, who, idx);
         let describe = || {
             format!(
-                "event #{idx} ({:?}, {}) by c{} handed to c{who} at step {}: outcome {}",
-                ev.class, ev.what, ev.author, w.step, outcome.tag()
+                "event #{idx} ({:?}, {}) by c{} handed to c{who} at step {}: outcome {}{}",
+                ev.class, ev.what, ev.author, w.step, outcome.tag(),
+                if std::env::var("VCHECK_C05_DEBUG").is_ok() {
+                    format!(" [rollbacks seen at this client: {:?}; this event {}]", w.clients[who].rollbacks.iter().map(|r| (r.step, r.target_epoch, r.head.to_hex()[..8].to_string())).collect::<Vec<_>>(), &ev.ev.id.to_hex()[..8])
+                } else {
+                    String::new()
+                }
             )
         };
         if let Some(r) = &ev.named.rogue {
@@ -1233,8 +1272,9 @@ impl Observer for AuthzObserver {
                             && unnamed_added.is_subset(&dep_foreign_add)
                             && !unnamed_data;
                         let detail = format!(
-                            "{}; the call named removed {:?} / added {:?} / data change {}, but the receiver saw removed {:?}, added {:?}, data changed {}",
+                            "{}{}; the call named removed {:?} / added {:?} / data change {}, but the receiver saw removed {:?}, added {:?}, data changed {}",
                             describe(),
+                            if std::env::var("VCHECK_C05_DEBUG").is_ok() { format!(" [members before {:?} after {:?}; clients {:?}]", bl.members.iter().map(|(i, p)| (*i, p[..6].to_string())).collect::<Vec<_>>(), al.members.iter().map(|(i, p)| (*i, p[..6].to_string())).collect::<Vec<_>>(), w.clients.iter().map(|c| c.pk_hex()[..6].to_string()).collect::<Vec<_>>()) } else { String::new() },
                             ev.named.removed.iter().map(|s| crate::fingerprint::sh(&s, 8)).collect::<Vec<_>>(),
                             ev.named.added.iter().map(|s| crate::fingerprint::sh(&s, 8)).collect::<Vec<_>>(),
                             ev.named.data_change,
@@ -1313,6 +1353,41 @@ pub fn nip01_id_of(m: &crate::fingerprint::MsgProj) -> Option<String> {
 
 impl AuthorBindingObserver {
     pub fn check_store(&mut self, w: &World, who: usize, all: &[Full], ctx: &str) -> Result<(), Failure> {
+        // a message id finds its message in the group that stores it and nothing in any other group
+        // (the second group of some worlds may not have stored a single message yet)
+        if all.len() > 1 {
+            let gids: Vec<mdk_storage_traits::GroupId> = std::iter::once(w.gid.clone()).chain(w.extra_gids.iter().cloned()).collect();
+            for (gi, f) in all.iter().enumerate() {
+                for x in &f.msgs_created {
+                    let Ok(id) = nostr::EventId::from_hex(&x.id) else { continue };
+                    for (gj, g) in gids.iter().enumerate().take(all.len()) {
+                        let got = on_mdk!(w.clients[who].mdk(), m => m.get_message(g, &id));
+                        let listed = all[gj].msgs_created.iter().find(|y| y.id == x.id);
+                        match (got, listed) {
+                            (Ok(Some(m)), None) => {
+                                return Err(Failure::new(
+                                    "message-of-one-group-found-in-another",
+                                    format!(
+                                        "{ctx}: c{who} stores message {} ({:?}) in group#{gi} only, yet looking it up by id in group#{gj} returns it (author {}, content {:?})",
+                                        crate::fingerprint::sh(&x.id, 8), x.content, crate::fingerprint::sh(&m.pubkey.to_hex(), 8), m.content
+                                    ),
+                                ));
+                            }
+                            (Ok(Some(m)), Some(y)) if m.pubkey.to_hex() != y.pubkey || m.content != y.content => {
+                                return Err(Failure::new(
+                                    "message-of-one-group-found-in-another",
+                                    format!("{ctx}: c{who} group#{gj}: looking up {} by id returns ({}, {:?}), the listing has ({}, {:?})", crate::fingerprint::sh(&x.id, 8), crate::fingerprint::sh(&m.pubkey.to_hex(), 8), m.content, crate::fingerprint::sh(&y.pubkey, 8), y.content),
+                                ));
+                            }
+                            (Ok(None), Some(_)) => {
+                                return Err(Failure::new("stored-message-not-found-by-id", format!("{ctx}: c{who} group#{gj} lists message {} but the lookup by id finds nothing", crate::fingerprint::sh(&x.id, 8))));
+                            }
+                            _ => {}
+                        }
+                    }
+                }
+            }
+        }
         for (gi, f) in all.iter().enumerate() {
             let mut seen = BTreeSet::new();
             for x in &f.msgs_created {
